@@ -24,6 +24,7 @@ pub fn campaigns(tier: Tier, pipes: &[Pipe]) -> Vec<Campaign> {
         blanks,
         pipes: pipes.to_vec(),
         filter: None,
+        choice_gen: None,
     };
     // (a) tiny trees, every rendering (all deviations the tree admits), all blank styles
     v.push(mk("tiny-all-renderings", &t0, alpha(&UT_BINS_ALL, &UT_UNS_ALL, leaves_with_const()), vec![(1, 0), (1, 1), (1, 2), (2, 0), (2, 1)], 99, vec![0, 1, 2]));
